@@ -45,6 +45,12 @@ def run(ck):
         stim.append({"alg": "cg", "vals": vals, "k": k, "o": rng.choice(OBJ3), "sw": sw_dict(s), "swc": s})
         stim.append({"alg": "ckkgen", "vals": vals, "k": k, "o": "diff"})
         stim.append({"alg": "cbldm", "vals": vals + [rng.randint(0, 30) for _ in range(3)], "k": 2, "o": "diff", "d": rng.choice([1, 2, n + 3]), "d_default": False})
+    from .. import gen
+    for g in gen.near_equal_large(rng, 30 if q else 400):        # large, relatively close values: every cut point of complete greedy and the CKK generator
+        s = rng.choice(["1101", "0000", "1111"])
+        for o in OBJ3:
+            stim.append({"alg": "cg", "vals": g["vals"], "k": g["k"], "o": o, "sw": sw_dict(s), "swc": s})
+        stim.append({"alg": "ckkgen", "vals": g["vals"], "k": g["k"], "o": "diff"})
     for kf in ck.known:      # every known finding's witness is re-executed on every run
         w = kf.get("witness")
         if kf.get("status") == "known" and w and w.get("kind") == "anytime":
